@@ -243,7 +243,8 @@ pub fn run_stress(a: &Args) {
     let rounds = if a.quick() { 6 } else { 10 };
     let ops_per_round = if a.quick() { 14 } else { 30 };
     let ttl_ticks = 2u32;
-    let mut summary_out = Out::new(&a.out, "c19stress", 1_000_000);
+    let concat = a.opt("db").as_deref() == Some("concat");
+    let mut summary_out = Out::new(&a.out, &a.opt("stem").unwrap_or_else(|| "c19stress".into()), 1_000_000);
     for run in 0..runs {
         let root = a.out.join(format!("c19-stress-{run}"));
         let _ = std::fs::remove_dir_all(&root);
@@ -258,7 +259,17 @@ pub fn run_stress(a: &Args) {
             init.insert(k.to_string(), json!(if present { 1 } else { 0 }));
         }
         std::fs::write(root.join("Always"), tzif_fixed(42)).unwrap();
-        let db = TimeZoneDatabase::from_dir(&root).unwrap();
+        let cfile = root.join("tzdata");
+        let mut cstate0 = [0i64; 3];
+        for (idx, (k, _)) in NAMES.iter().enumerate() {
+            cstate0[idx] = init[*k].as_i64().unwrap_or(0);
+        }
+        let db = if concat {
+            write_concat(&cfile, &cstate0, 1);
+            TimeZoneDatabase::from_concatenated_path(&cfile).unwrap()
+        } else {
+            TimeZoneDatabase::from_dir(&root).unwrap()
+        };
         db.__verif_set_ttl(TICK * ttl_ticks + TICK / 2);
         db.reset();
         jiff::__verif::set_tracing(true);
@@ -277,7 +288,9 @@ pub fn run_stress(a: &Args) {
                 for _round in 0..rounds {
                     barrier.wait();
                     for k in 0..ops_per_round {
-                        if rng.chance(1, 12) {
+                        // every other run resets rarely, so that entries live long enough to expire,
+                        // be revalidated and be reloaded
+                        if rng.chance(1, if run % 2 == 0 { 12 } else { 90 }) {
                             // reset: the hook event itself carries the thread
                             if guard(|| db.reset()).is_err() {
                                 panicked.lock().unwrap().push("reset panicked".into());
@@ -308,12 +321,43 @@ pub fn run_stress(a: &Args) {
             let (hev, barrier, root) = (hev.clone(), barrier.clone(), root.clone());
             let mut rng = Rng::new(a.seed, 99_000 + run as u64);
             let mut present: Vec<bool> = NAMES.iter().enumerate().map(|(i, (k, _))| init[*k].as_i64() == Some(1) && i < 3).collect();
+            let cfile = cfile.clone();
             handles.push(std::thread::spawn(move || {
                 let mut ver = 2i64;
+                let mut cstate = cstate0;
+                let mut have_file = true;
                 for _round in 0..rounds {
                     barrier.wait();
                     for _ in 0..3 {
                         std::thread::sleep(Duration::from_micros(rng.range(20, 400) as u64));
+                        if concat {
+                            // the whole file is rewritten (one zone renewed, dropped or nothing changed), or removed
+                            let remove = have_file && rng.chance(1, 20);
+                            if !remove {
+                                let idx = (rng.next() % 3) as usize;
+                                match rng.next() % 8 {
+                                    0 => cstate[idx] = 0,
+                                    1 | 2 | 3 => {}
+                                    _ => cstate[idx] = ver,
+                                }
+                            }
+                            let z = json!({"a": if remove {0} else {cstate[0]}, "b": if remove {0} else {cstate[1]}, "c": if remove {0} else {cstate[2]}});
+                            let kind = if remove { "removefile" } else { "rewrite" };
+                            let mt = if remove { 0 } else { ver };
+                            let s0 = jiff::__verif::next_seq();
+                            hev.lock().unwrap().push(HEv { seq: s0, v: json!({"ev":"env_start","kind":kind,"mt":mt,"z":z}) });
+                            if remove {
+                                let _ = std::fs::remove_file(&cfile);
+                                have_file = false;
+                            } else {
+                                write_concat(&cfile, &cstate, ver);
+                                have_file = true;
+                                ver += 1;
+                            }
+                            let s1 = jiff::__verif::next_seq();
+                            hev.lock().unwrap().push(HEv { seq: s1, v: json!({"ev":"env_end","kind":kind,"mt":mt,"z":z}) });
+                            continue;
+                        }
                         let idx = (rng.next() % 3) as usize;
                         let (kind, v) = if present[idx] {
                             if rng.chance(1, 4) { ("remove", 0) } else { ("replace", ver) }
@@ -341,7 +385,7 @@ pub fn run_stress(a: &Args) {
         for round in 0..rounds {
             barrier.wait(); // start of round
             barrier.wait(); // end of round: all workers and the writer are parked
-            if round % 2 == 1 || run % 3 == 0 {
+            if round % 2 == 1 || run % 3 == 0 || run % 2 == 1 {
                 jiff::__verif::advance_monotonic(TICK);
                 let s = jiff::__verif::next_seq();
                 hev.lock().unwrap().push(HEv { seq: s, v: json!({"ev":"tick"}) });
@@ -372,7 +416,7 @@ pub fn run_stress(a: &Args) {
         all.sort_by_key(|e| e.seq);
         let path = a.out.join(format!("c19trace-{run:03}.ndjson"));
         let mut text = String::new();
-        text.push_str(&serde_json::to_string(&json!({"ev":"init","disk":Value::Object(init.clone())})).unwrap());
+        text.push_str(&serde_json::to_string(&json!({"ev":"init","disk":Value::Object(init.clone()),"zones":Value::Object(init.clone())})).unwrap());
         text.push('\n');
         let mut unsorted = false;
         for e in &all {
